@@ -487,7 +487,13 @@ func verifyFuncBeh(prog *Program, key string, beh *Behavior) (res *FuncResult) {
 	res.Drift = append(res.Drift, ex.drift...)
 	for _, cc := range fc.Callsites {
 		if !ex.callsitesUsed[cc] && cc.Stmt {
-			// an intermediate assertion that matches nothing only makes later obligations harder to prove
+			// the statement the assertion is attached to is gone: what it asserted cannot be established on this code
+			kind, lab := "F", cc.Req.Label
+			if j := strings.Index(lab, ":"); j == 1 {
+				kind, lab = lab[:1], lab[2:]
+			}
+			o := &Obl{Name: fmt.Sprintf("%s/%s:at[%s]:no-such-statement", ex.name, kind, lab), Kind: kind, Pos: cc.Req.Line, PC: True, Goal: False, NFacts: 0, Func: ex.name, FactIdx: -1, FuncKey: res.Name}
+			res.Obls = append(res.Obls, o)
 			res.Warnings = append(res.Warnings, fmt.Sprintf("%s: at %q matches no statement", key, cc.CallText))
 			continue
 		}
@@ -500,6 +506,12 @@ func verifyFuncBeh(prog *Program, key string, beh *Behavior) (res *FuncResult) {
 			o := &Obl{Name: fmt.Sprintf("%s/%s:callsite[%s]:no-such-call", ex.name, kind, lab), Kind: kind, Pos: cc.Req.Line, PC: True, Goal: False, NFacts: 0, Func: ex.name, FactIdx: -1, FuncKey: res.Name}
 			res.Obls = append(res.Obls, o)
 			res.Warnings = append(res.Warnings, fmt.Sprintf("%s: callsite %q matches no call expression", key, cc.CallText))
+		}
+	}
+	for _, cc := range fc.Closures {
+		if !ex.closuresUsed[cc] {
+			o := &Obl{Name: fmt.Sprintf("%s/F:closure[%s]:no-such-literal", ex.name, cc.Text), Kind: "F", Pos: fc.Line, PC: True, Goal: False, NFacts: 0, Func: ex.name, FactIdx: -1, FuncKey: res.Name}
+			res.Obls = append(res.Obls, o)
 		}
 	}
 	for _, b := range fc.Binds {
